@@ -10,79 +10,10 @@
 (* of the ADF alone (history independence = cache transparency + handle    *)
 (* stability), adf.ac is never modified, and the store invariants persist. *)
 (***************************************************************************)
-EXTENDS RobddOps, AdfSem, Iterators
+EXTENDS AdfRobddOps, AdfSem
 
 CONSTANTS N,          \* statements = diagram variables 0..N-1
           MaxCalls
-
-\* explicit tuples (TLC cannot spill lazily evaluated function values of states to disk)
-RECURSIVE MkSeq(_, _, _)
-MkSeq(f, i, n) == IF i > n THEN <<>> ELSE <<f[i]>> \o MkSeq(f, i + 1, n)
-
-IsTVh(h) == h <= 1
-TVh(h) == IF h = 1 THEN "T" ELSE IF h = 0 THEN "F" ELSE "U"
-TVseq(I) == [i \in DOMAIN I |-> TVh(I[i])]
-
-\* fold Bdd::restrict over the decided positions of interp (only = "all": every decided one, "false": only the false ones)
-RECURSIVE RestrictFold(_, _, _, _, _)
-RestrictFold(S, acc, interp, v, only) ==
-  IF v > Len(interp) THEN R(S, acc)
-  ELSE IF IsTVh(interp[v]) /\ (only = "all" \/ interp[v] = 0)
-       THEN LET x == Restrict(S, acc, v - 1, interp[v] = 1) IN RestrictFold(x.S, x.r, interp, v + 1, only)
-       ELSE RestrictFold(S, acc, interp, v + 1, only)
-
-\* Adf::grounded_internal: one Jacobi round over the positions in order, on the snapshot of the previous round
-RECURSIVE GroundRoundR(_, _, _, _)
-GroundRoundR(S, snap, new, i) ==
-  IF i > Len(snap) THEN R(S, new)
-  ELSE IF IsTVh(new[i]) THEN GroundRoundR(S, snap, new, i + 1)
-       ELSE LET x == RestrictFold(S, new[i], snap, 1, "all") IN
-            GroundRoundR(x.S, snap, [new EXCEPT ![i] = x.r], i + 1)
-
-RECURSIVE GroundedInternalR(_, _)
-GroundedInternalR(S, I) ==
-  LET x == GroundRoundR(S, I, I, 1)
-      cnt(J) == Cardinality({ i \in DOMAIN J : IsTVh(J[i]) }) IN
-  IF cnt(x.r) = cnt(I) THEN x ELSE GroundedInternalR(x.S, x.r)
-
-\* the filter of Adf::complete for one candidate: Iterator::all stops at the first failing position
-RECURSIVE CompleteFilterR(_, _, _, _)
-CompleteFilterR(S, ac, cand, i) ==
-  IF i > Len(ac) THEN R(S, TRUE)
-  ELSE LET x == RestrictFold(S, ac[i], cand, 1, "all") IN
-       IF TVh(cand[i]) = TVh(x.r) THEN CompleteFilterR(x.S, ac, cand, i + 1) ELSE R(x.S, FALSE)
-
-\* candidates of the three-valued odometer keep the residual HANDLE at undecided positions
-CandHandles(grd, pattern) == MkSeq([i \in DOMAIN grd |-> IF pattern[i] = "T" THEN 1 ELSE IF pattern[i] = "F" THEN 0 ELSE grd[i]], 1, Len(grd))
-
-RECURSIVE CompleteLoop(_, _, _, _, _, _)
-CompleteLoop(S, ac, grd, pats, k, acc) ==
-  IF k > Len(pats) THEN R(S, acc)
-  ELSE LET cand == CandHandles(grd, pats[k])
-           x == CompleteFilterR(S, ac, cand, 1) IN
-       CompleteLoop(x.S, ac, grd, pats, k + 1, IF x.r THEN Append(acc, cand) ELSE acc)
-
-CompleteR(S, ac) ==
-  LET g == GroundedInternalR(S, ac) IN
-  CompleteLoop(g.S, ac, g.r, Seq3(TVseq(g.r)), 1, <<>>)
-
-\* Adf::stable: reduct by the false statements, grounded_internal of it, compare information on all positions
-RECURSIVE ReductR(_, _, _, _, _)
-ReductR(S, ac, cand, i, acc) ==
-  IF i > Len(ac) THEN R(S, acc)
-  ELSE LET x == RestrictFold(S, ac[i], cand, 1, "false") IN ReductR(x.S, ac, cand, i + 1, Append(acc, x.r))
-
-RECURSIVE StableLoop(_, _, _, _, _)
-StableLoop(S, ac, pats, k, acc) ==
-  IF k > Len(pats) THEN R(S, acc)
-  ELSE LET cand == MkSeq([i \in DOMAIN ac |-> IF pats[k][i] = "T" THEN 1 ELSE 0], 1, Len(ac))
-           red == ReductR(S, ac, cand, 1, <<>>)
-           g == GroundedInternalR(red.S, red.r) IN
-       StableLoop(g.S, ac, pats, k + 1, IF TVseq(g.r) = TVseq(cand) THEN Append(acc, cand) ELSE acc)
-
-StableR(S, ac) ==
-  LET g == GroundedInternalR(S, ac) IN
-  StableLoop(g.S, ac, Seq2(TVseq(g.r)), 1, <<>>)
 
 \* canonical construction of a Boolean function over variables 0..N-1 (what a bridge import does: bottom-up through Bdd::node)
 Assign0 == SUBSET (0..(N - 1))
